@@ -153,6 +153,10 @@ func Harness_C16_serve_gates() {
 	if asattVal != "" {
 		q.Set("asatt", asattVal)
 	}
+	// a stray ?topic= (the upload endpoint knows topic=newacc) means nothing to downloads
+	if tp := []string{"", "newacc", "grpAAAAAAAAAAB"}[verifChoose("topicParam", 3)]; tp != "" {
+		q.Set("topic", tp)
+	}
 	req := &http.Request{Method: method, Header: hdr, URL: &url.URL{Path: "/v0/file/s/abc.png", RawQuery: q.Encode()}}
 	w := &verifRW{hdr: http.Header{}}
 	largeFileServe(w, req)
@@ -294,6 +298,11 @@ func Harness_C16_receive_gates() {
 			order = append(order, "auth", "secret")
 		}
 	}
+	topicField := []string{"", "newacc", "grpAAAAAAAAAAB"}[verifChoose("topicField", 3)]
+	if topicField != "" {
+		fields["topic"] = topicField
+		order = append(order, "topic")
+	}
 	big := verifNondetBool("oversized")
 	fileBytes := 100
 	if big {
@@ -308,8 +317,13 @@ func Harness_C16_receive_gates() {
 	implemented := method == "POST" || method == "PUT"
 	allowed := implemented && key == verifGoodKey && hasCred && authOK && !big
 	if !allowed {
-		verifAssert(mh.uploads == 0 && verifFiles.started == 0, "refused-upload-stores-nothing")
-		verifAssert(w.code >= 400, "refused-upload-gets-an-error-status")
+		sfx := ""
+		if implemented && key == verifGoodKey && !hasCred && !big && topicField == "newacc" {
+			// known finding: an upload that names topic=newacc (avatar chosen during sign-up) is accepted without credentials
+			sfx = "/KF-signup-upload-without-credentials"
+		}
+		verifAssert(mh.uploads == 0 && verifFiles.started == 0, "refused-upload-stores-nothing"+sfx)
+		verifAssert(w.code >= 400, "refused-upload-gets-an-error-status"+sfx)
 	}
 	if !implemented {
 		verifAssert(w.code == http.StatusMethodNotAllowed, "unimplemented-method-refused")
